@@ -104,6 +104,9 @@ class Source:
         statements are the very AST nodes of the real loop; labels keep the ordinals of the enclosing function)"""
         import copy
         fq, lab = qualname.split("::", 1)
+        whole = lab.startswith("whole-")       # '<func>::whole-loop#k' = the loop statement itself, not just its body
+        if whole:
+            lab = lab[len("whole-"):]
         fi = self.funcs[fq]
         node = None
         for n in ast.walk(fi.node):
@@ -114,7 +117,7 @@ class Source:
             raise KeyError("no %s in %s" % (lab, fq))
         fn = ast.FunctionDef(name=fi.node.name, args=ast.arguments(
             posonlyargs=[], args=[ast.arg(arg=p) for p in params], vararg=None, kwonlyargs=[], kw_defaults=[],
-            kwarg=None, defaults=[]), body=node.body, decorator_list=[], lineno=node.lineno, col_offset=0)
+            kwarg=None, defaults=[]), body=[node] if whole else node.body, decorator_list=[], lineno=node.lineno, col_offset=0)
         fr = copy.copy(fi)
         fr.qualname = qualname
         fr.node = fn
